@@ -3,6 +3,7 @@
 //! (`F<TAB>property<TAB>json`).
 mod common;
 mod strings;
+mod suite_cmp;
 mod suite_entity;
 mod suite_forest;
 mod suite_fspec;
@@ -30,9 +31,11 @@ fn main() {
     match suite {
         "entity" => suite_entity::run(seed, count, tier, &mut sink),
         "tree" => suite_tree::run(seed, count, tier, &mut sink),
+        "cmp" => suite_cmp::run(seed, count, tier, &mut sink),
         "forest" => suite_forest::run(seed, count, tier, &mut sink),
         "fspec" => suite_fspec::run(seed, count, tier, &mut sink),
         "rt" => suite_rt::run(seed, count, tier, &mut sink),
+        "exec-forest" => suite_forest::exec_stdin(&mut sink),
         "idmap" => suite_idmap::run(seed, count, tier, &mut sink),
         _ => {
             eprintln!("unknown suite {}", suite);
